@@ -418,7 +418,10 @@ def r4(R):
                                  'file (no truncate to self._pos)')
         return st
 
-    vs, stats = explore(g, (None, False), at=at, edge=edge)
+    # BaseExceptions too (KeyboardInterrupt, greenlet timeouts): the abort
+    # that follows does not truncate, because nothing was recorded as voted
+    vs, stats = explore(g, (None, False), at=at, edge=edge,
+                        base_exceptions=True)
     R.count(stats)
     for s in sorted(sites):
         R.instance('vote write site', stmt=g.nodes[s].text(70))
@@ -665,6 +668,52 @@ def r6(R):
         if isinstance(c.ops[0], ast.Eq):
             return 'T'
         return None
+
+    def status_atom(e, truth):
+        """does (e is `truth`) say status == 'c' is false?"""
+        if isinstance(e, ast.Compare) and len(e.ops) == 1:
+            sides = [e.left, e.comparators[0]]
+            names = [x.id for x in sides if isinstance(x, ast.Name)]
+            consts = [x.value for x in sides if isinstance(x, ast.Constant)]
+            if status_name in names and consts and consts[0] in ('c', b'c'):
+                if isinstance(e.ops[0], ast.Eq) and not truth:
+                    return True
+                if isinstance(e.ops[0], ast.NotEq) and truth:
+                    return True
+            if status_name in names and isinstance(
+                    e.ops[0], ast.In) and truth and consts and \
+                    isinstance(consts[0], str) and 'c' not in consts[0]:
+                return True
+        return False
+
+    cleared_sites = [0]
+
+    def edge5(node, st, lab, tgt):
+        from ..flow import implied_atoms
+        if node.kind == 'loophead' and node.frame.parent is None and \
+                isinstance(node.ast, ast.While) and node.ast in f.node.body:
+            return False
+        if node.kind == 'test' and lab in ('T', 'F'):
+            if any(status_atom(e, t) for e, t in implied_atoms(node.ast,
+                                                                lab)):
+                cleared_sites[0] += 1
+                return True
+        return st
+
+    def at5(node, st):
+        if node in upd and not st:
+            return Violation(
+                'index.update(tindex) is reachable on a path whose branches '
+                'do not establish that the transaction\'s status is not the '
+                'checkpoint flag "c" (the test was weakened or made '
+                'conditional): a transaction that was voted but never '
+                'finished becomes visible after a crash')
+        return st
+
+    vs5, stats5 = explore(g, False, at=at5, edge=edge5)
+    R.count(stats5)
+    for v in vs5:
+        R.violation(v.node, v.message, g, v.path, instance='read_index')
 
     def edge2(node, st, lab, tgt):
         if node.kind == 'loophead' and node.frame.parent is None and \
